@@ -80,7 +80,7 @@ class SimThread:
 
 
 class Sched:
-    def __init__(self, choices=(), horizon=4000.0, max_steps=3_000_000, preempt=None, trace=False, repo="/repo", opcodes=False):
+    def __init__(self, choices=(), horizon=4000.0, max_steps=3_000_000, preempt=None, trace=False, repo="/repo"):
         self.now = 0.0
         self.threads = []
         self.current = None
@@ -96,8 +96,6 @@ class Sched:
         self.preempt = {int(k): v for k, v in (preempt or {}).items()}
         self.trace = trace or bool(self.preempt)
         self.horizon = horizon
-        self.opcodes = opcodes  # count (and preempt at) bytecode instructions instead of lines
-        self._step_event = "opcode" if opcodes else "line"
         self.prefix = os.path.join(os.path.realpath(repo), "websocket") + os.sep
         self._fcache = {}
         self.decisions = 0
@@ -281,12 +279,10 @@ class Sched:
         ok = self._fcache.get(fn)
         if ok is None:
             ok = self._fcache[fn] = os.path.realpath(fn).startswith(self.prefix)
-        if ok and self.opcodes:
-            frame.f_trace_opcodes = True
         return self._trace_local if ok else None
 
     def _trace_local(self, frame, event, arg):
-        if event == self._step_event:
+        if event == "line":
             self.steps += 1
             if self.steps > self.max_steps:
                 self.steps = -10**12
